@@ -208,3 +208,34 @@ m('reader-early-end-size-test', 'R02e', CB,
 m('fatal-in-eviction-callback', 'R14g', DISK,
   '		log.Printf("ERROR: failed to remove evicted cache file: %s", f)',
   '		log.Fatalf("ERROR: failed to remove evicted cache file: %s", f)')
+m('inplace-truncate-on-error', 'R07g', DISK,
+  '''	if isSizeMismatch(sizeOnDisk, size) {
+		return -1, fmt.Errorf(
+			"sizes don't match. Expected %d, found %d", size, sizeOnDisk)
+	}
+''',
+  '''	if isSizeMismatch(sizeOnDisk, size) {
+		_ = f.Truncate(0)
+		return -1, fmt.Errorf(
+			"sizes don't match. Expected %d, found %d", size, sizeOnDisk)
+	}
+''')
+m('tempfile-not-exclusive', 'R07g', 'utils/tempfile/tempfile.go',
+  'const flags = os.O_RDWR | os.O_CREATE | os.O_EXCL',
+  'const flags = os.O_RDWR | os.O_CREATE | os.O_TRUNC')
+m('serve-compressed-without-header-check', 'R08e,R08d', CB,
+  '''func GetUncompressedReadCloser(zstd zstdimpl.ZstdImpl, f *os.File, expectedSize int64, offset int64) (io.ReadCloser, error) {
+	h, err := readHeader(f)
+	if err != nil {
+		_ = f.Close()
+		return nil, err
+	}''',
+  '''func GetUncompressedReadCloser(zstd zstdimpl.ZstdImpl, f *os.File, expectedSize int64, offset int64) (io.ReadCloser, error) {
+	h, err := readHeader(f)
+	if err != nil && offset > 0 {
+		_ = f.Close()
+		return nil, err
+	}
+	if h == nil {
+		return f, nil
+	}''')
